@@ -150,7 +150,7 @@ def stepTok (s : St) (tok : String) : St × String :=
       match tableOf ts tn with
       | none => (s, "bad-op")
       | some t =>
-        if k == "a" then
+        if k == "a" || (k == "r" && tn == "md") then
           match add hashS s.heap t arg with
           | .ok (h, t', i) => (setBlock { s with heap := h } b (setTable ts tn t'), toString i)
           | .dangling => (s, "DANGLING")
